@@ -237,12 +237,10 @@ def runReads {Q R σ} (env : Env Q R σ) (cfg : SessionCfg) (peer : Option Cert)
   | s, [] => ([], s)
   | s, .closed _ :: _ => ([], s)
   | s, .short p :: r =>
-    let (es, sf) := runReads env cfg peer s r
-    (.badFrame p :: es, sf)
+    (.badFrame p :: (runReads env cfg peer s r).1, (runReads env cfg peer s r).2)
   | s, .ok d :: r =>
-    let (o, s') := handleMessage env cfg peer s d
-    let (es, sf) := runReads env cfg peer s' r
-    (.handled d o :: es, sf)
+    (.handled d (handleMessage env cfg peer s d).1 :: (runReads env cfg peer (handleMessage env cfg peer s d).2 r).1,
+     (runReads env cfg peer (handleMessage env cfg peer s d).2 r).2)
 
 theorem run_eq_runReads {Q R σ} (env : Env Q R σ) (cfg : SessionCfg) (peer : Option Cert) (s : σ) (c : Conn) :
     run env cfg peer s c = runReads env cfg peer s (reads c) := by
@@ -252,23 +250,25 @@ theorem run_eq_runReads {Q R σ} (env : Env Q R σ) (cfg : SessionCfg) (peer : O
     · rfl
     · rename_i h'; rw [h] at h'; cases h'
     · rename_i h'; rw [h] at h'; cases h'
-  | case2 s c p c' h _ es sf hrun ih =>
+  | case2 s c p c' h _ t ih =>
     rw [reads]; split
     · rename_i h'; rw [h] at h'; cases h'
     · rename_i h'; rw [h] at h'; cases h'
-      simp only [runReads, ← ih, hrun]
+      simp only [runReads, ← ih, t]
     · rename_i h'; rw [h] at h'; cases h'
-  | case3 s c d c' h _ o s' hh es sf hrun ih =>
+  | case3 s c d c' h _ r t ih =>
     rw [reads]; split
     · rename_i h'; rw [h] at h'; cases h'
     · rename_i h'; rw [h] at h'; cases h'
     · rename_i h'; rw [h] at h'; cases h'
-      simp only [runReads, hh, ← ih, hrun]
+      simp only [runReads, ← ih, t, r]
 
 /-! ### framing facts on the byte stream -/
 
 /-- a complete frame: 8-byte header whose bytes 4..7 give the length of what follows -/
 def WellFramed (f : Bytes) : Prop := 8 ≤ f.length ∧ f.length = 8 + be32 ((f.take 8).drop 4)
+
+instance (f : Bytes) : Decidable (WellFramed f) := by unfold WellFramed; exact inferInstance
 
 theorem splitFrame_append {f : Bytes} (rest : Bytes) (h : WellFramed f) : splitFrame (f ++ rest) = some (f, rest) := by
   obtain ⟨h8, hl⟩ := h
